@@ -1,8 +1,11 @@
 """C01 stage 3 — the double-description engine of Polyhedron (helper of checks/c01.py).
 
-proof:  PPLV.Props.C01Conv over the code-shaped model lean/PPLV/Conv/{Model,Simplify}.lean of
-        Polyhedron::conversion / simplify / minimize / add_and_minimize (static templates of
-        src/Polyhedron_{conversion,simplify,minimize}_templates.hh).
+proof:  PPLV.Props.C01Conv (stage 3: soundness, exact saturation matrix, span facts, simplify_sound) and
+        PPLV.Props.C01ConvComplete (stage 4: COMPLETENESS of conversion - the Double Description lemma with the
+        adjacency criterion and both quick tests, by induction over the main loop; "empty" reports of minimize
+        are right; the rows simplify drops are redundant) over the code-shaped model
+        lean/PPLV/Conv/{Model,Simplify}.lean of Polyhedron::conversion / simplify / minimize / add_and_minimize
+        (static templates of src/Polyhedron_{conversion,simplify,minimize}_templates.hh).
 tie:    harness/c01_conv.cc calls the REAL static members on seeded systems (both directions, C and NNC,
         dimension 0..4, degenerate shapes; plus Linear_System::sort_rows() as the head of minimize) and journals input rows, output rows IN ORDER, the returned
         value and the saturation matrix; the native driver pplv_conv replays the model and requires the
@@ -14,7 +17,7 @@ no-failing-input-found); a failed property check on the real output is a VIOLATI
 import collections, concurrent.futures as cf, hashlib, os, shutil
 from .common import BUILD
 
-PROPS = ["PPLV.Props.C01Conv"]
+PROPS = ["PPLV.Props.C01Conv", "PPLV.Props.C01ConvComplete"]
 
 
 def _split_cases(journal):
@@ -146,9 +149,13 @@ def run(ctx):
         "double-description engine: conversion / simplify / minimize / add_and_minimize are modelled row for row (PPLV/Conv); NOT modelled: "
         "the `sorted` flags and pending index they leave (ghost inputs of the status-protocol model), maybe_abandon / WEIGHT accounting, the "
         "std::length_error of Variable(j-1) for a pivot in column 0 inside gauss/back_substitute (inconsistent systems never reach simplify)",
-        "double-description engine: completeness of conversion (dest generates the whole cone: the Double Description lemma with the adjacency "
-        "criterion) and the redundancy criteria of simplify are NOT proved; they are certified per run by the K1 deciders checkDD / equivB on "
-        "the real output",
+        "double-description engine: completeness of conversion (dest generates the whole cone; adjacency criterion and both quick "
+        "tests) is PROVED for the model (Props/C01ConvComplete) under: no dimension_type overflow (num_columns, number of source rows "
+        "< 2^64), and for the incremental entry (add_and_minimize) the invariant CExtra on the pair handed in; the per-run K1 deciders "
+        "checkDD / equivB on the real output stay in place (they certify the real run, the theorems the model); the rows simplify drops are proved redundant under two "
+        "assumed facts about the echelon form of gauss (simplify_drops_only_redundant_partial: rank < num_columns, no zero pivot in "
+        "back_substitute = the code's own assertion); NOT proved: that no redundant row REMAINS after simplify (minimality of the "
+        "simplified system)",
     ]
     shutil.rmtree(wd, ignore_errors=True)
     return broken
